@@ -244,10 +244,11 @@ pub fn run(ctx: &Ctx) {
   let months: Vec<(i32, u8)> = {
     let mut v = Vec::new();
     for y in 1..=9999i32 {
-      if ctx.quick() && !in_windows(&w, y as isize) {
-        continue;
-      }
       for m in 1..=12u8 {
+        // quick: the windows, plus every 13th month of the whole range (13 is coprime to 12, so every month number is met)
+        if ctx.quick() && !in_windows(&w, y as isize) && (12 * y as usize + m as usize) % 13 != 0 {
+          continue;
+        }
         v.push((y, m));
       }
     }
@@ -269,7 +270,7 @@ pub fn run(ctx: &Ctx) {
   );
   let t = LunTable::build(ctx, 0, 9999);
   let lsteps: Vec<isize> = if ctx.quick() { vec![0, 1, -1, 5, -5, 30] } else { (-30..=30).collect() };
-  let lyears: Vec<isize> = years_for(ctx, 2, 9998).into_iter().filter(|y| lunar_year_ok(*y as i32) && (ctx.quick() || in_windows(&w, *y) || y % 10 == 0)).collect();
+  let lyears: Vec<isize> = (2..=9998isize).filter(|y| lunar_year_ok(*y as i32) && (in_windows(&w, *y) || (ctx.quick() && y % 17 == 0) || (!ctx.quick() && y % 10 == 0))).collect();
   let mut idx: Vec<usize> = Vec::new();
   for &y in &lyears {
     idx.extend(t.year_start[y as usize] as usize..t.year_start[y as usize + 1] as usize);
